@@ -20,6 +20,10 @@ pub struct GenOpts {
     pub c_fields: bool,
     /// line / block comment directly after a block opener (`then`, `do`, `else`, `repeat`, function header)
     pub c_after_opener: bool,
+    /// comment on its own line after the last statement of a nested block (before `end` / `else` / `until`)
+    pub c_block_end: bool,
+    /// comment on its own line between an `if` condition and `then`
+    pub c_before_then: bool,
     /// comments at arbitrary token gaps (exploratory)
     pub c_anywhere: bool,
     /// `-- stylua: ignore` directives
@@ -44,6 +48,8 @@ impl GenOpts {
             c_after_stmt_line: false,
             c_fields: false,
             c_after_opener: false,
+            c_before_then: false,
+            c_block_end: false,
             c_anywhere: false,
             ignores: false,
             inner_newlines: true,
@@ -57,7 +63,7 @@ impl GenOpts {
         GenOpts { inner_newlines: false, clean: true, flat: true, ..GenOpts::plain() }
     }
     pub fn stmt_comments() -> GenOpts {
-        GenOpts { c_before_stmt: true, c_after_stmt_block: true, c_after_stmt_line: true, c_after_opener: true, ..GenOpts::plain() }
+        GenOpts { c_before_stmt: true, c_after_stmt_block: true, c_after_stmt_line: true, c_after_opener: true, c_fields: true, c_before_then: true, c_block_end: true, ..GenOpts::plain() }
     }
 }
 
@@ -253,6 +259,12 @@ impl<'a, 'b> G<'a, 'b> {
         self.write_indent(0);
         let c = if self.t.chance(90) { self.block_comment() } else { self.line_comment() };
         self.push(&c);
+        if c.ends_with(']') && self.t.chance(30) {
+            // a second comment touching the first one
+            let c2 = if self.t.chance(128) { self.block_comment() } else { self.line_comment() };
+            self.push(&c2);
+            self.labels.insert("c:touching-comments");
+        }
         self.push("\n");
     }
     /// exploratory: a comment in an arbitrary gap
@@ -421,6 +433,10 @@ impl<'a, 'b> G<'a, 'b> {
                 self.push(nl);
             }
             i += 1;
+        }
+        if self.o.c_block_end && !top && self.t.chance(30) {
+            self.own_line_comment();
+            self.labels.insert("c:block-end");
         }
     }
     fn stmt_inline_follow(&mut self, last: bool, top: bool) {
@@ -813,7 +829,9 @@ impl<'a, 'b> G<'a, 'b> {
                 self.opt();
                 self.push("(");
                 let n = self.t.pick(4);
-                let multiline_args = self.o.c_fields && n > 0 && self.t.chance(60);
+                // a comment before a sole table / string argument whose call parentheses are removed is mis-indented
+                // (same family as KF-call-paren-comment): argument comments are generated for two or more arguments
+                let multiline_args = self.o.c_fields && n > 1 && self.t.chance(80);
                 for i in 0..n {
                     if i > 0 {
                         self.opt_plain();
@@ -873,7 +891,17 @@ impl<'a, 'b> G<'a, 'b> {
         self.push("if");
         self.sp();
         self.cond_expr();
-        self.sp();
+        if self.o.c_before_then && self.t.chance(40) {
+            self.push("\n");
+            self.write_indent(1);
+            let c = if self.t.chance(128) { self.block_comment() } else { self.line_comment() };
+            self.push(&c);
+            self.push("\n");
+            self.write_indent(0);
+            self.labels.insert("c:before-then");
+        } else {
+            self.sp();
+        }
         self.push("then");
         self.nested_block();
         let n = if self.budget > 0 { self.t.pick(3).min(self.t.pick(3)) } else { 0 };
@@ -1217,9 +1245,15 @@ impl<'a, 'b> G<'a, 'b> {
         if multiline {
             self.labels.insert("table-multiline-input");
         }
+        let first_on_brace_line = multiline && self.t.chance(60);
+        if first_on_brace_line {
+            self.labels.insert("table-first-field-on-brace-line");
+        }
         for i in 0..n {
             let mut field_messy = false;
-            if multiline {
+            if multiline && i == 0 && first_on_brace_line {
+                self.push(" ");
+            } else if multiline {
                 self.push("\n");
                 if self.o.c_fields && self.t.chance(50) {
                     self.write_indent(1);
